@@ -4,6 +4,7 @@ import WrapModel.Model.Parse
 import WrapModel.Model.Dump
 import WrapModel.Model.IDump
 import WrapModel.Model.Pybind
+import WrapModel.Model.PybindState
 import WrapModel.Model.Matlab.Cpp
 import WrapModel.Model.Runtime.Mx
 import WrapModel.Model.Runtime.Gateway
@@ -46,6 +47,25 @@ def handlePybind (args : List String) : String :=
       match Pybind.wrapInstantiated cfg tpl moduleName submodules im with
       | .ok out => okLine out
       | .error e => errLine e
+  | _ => "bad\targs"
+
+/-- a history of `wrap_file` calls on ONE wrapper object (`Model/PybindState.lean`): the texts travel U+001E-separated,
+    the answers come back the same way, each `ok:<output>` or `err:<kind>`; a text that does not parse or instantiate
+    raises before anything is emitted and leaves the object as it was -/
+def handlePyHist (args : List String) : String :=
+  match args with
+  | [texts, tpl, moduleName, top, boost, ignore] =>
+    let cfg : Pybind.Cfg := { moduleName := moduleName, top := decodeList top, useBoost := boost == "1",
+                              ignore := decodeList ignore }
+    let rec go (s : Pybind.WState) : List String → List String
+      | [] => []
+      | t :: r =>
+        match parseInst t with
+        | .error e => ("err:" ++ e.toString) :: go s r
+        | .ok im =>
+          let (s', out) := Pybind.wrapFileStep cfg tpl s moduleName none im
+          (match out with | .ok o => "ok:" ++ o | .error e => "err:" ++ e.toString) :: go s' r
+    okLine ("\x1e".intercalate (go {} (texts.splitOn "\x1e")))
   | _ => "bad\targs"
 
 def handleMatlab (args : List String) : String :=
@@ -124,6 +144,10 @@ def handle (fields : List String) : String :=
   | "pybind" :: rest =>
     match decodeAll rest with
     | some args => handlePybind args
+    | none => "bad\thex"
+  | "pyhist" :: rest =>
+    match decodeAll rest with
+    | some args => handlePyHist args
     | none => "bad\thex"
   | "matlab" :: rest =>
     match decodeAll rest with
